@@ -1241,9 +1241,13 @@ impl FseDecoder {
             }
         }
         
-        // Build decompression table
+        // Build decompression table. The stream states its own table size; the size limit of
+        // this decoder's configuration applies to the tables it would choose when encoding and
+        // must not reject a stream written with the same configuration (table_log was range
+        // checked above, so the table stays below 32 K entries).
         let config = FseConfig {
             table_log,
+            max_table_size: self.config.max_table_size.max(1usize << table_log),
             ..self.config.clone()
         };
         let table = FseTable::new(&frequencies, &config)?;
